@@ -48,6 +48,9 @@ type header struct {
 	ChangeCounter uint32
 	// Updated when any table definition changes
 	SchemaCookie uint32
+	// Files with a schema format before 4 ignore DESC in index definitions:
+	// every index is stored ascending, whatever its definition says.
+	DescIgnored bool
 }
 
 type objectCache struct {
@@ -188,7 +191,9 @@ func parseHeader(b []byte) (header, error) {
 	case 1:
 		// Version 1 ignores 'DESC' on indexes.
 		return h, ErrIncompatible
-	case 2, 3, 4:
+	case 2, 3:
+		h.DescIgnored = true
+	case 4:
 	default:
 		return h, ErrIncompatible
 	}
@@ -476,7 +481,11 @@ func (db *Database) Schema(table string) (*Schema, error) {
 	if err != nil {
 		return nil, err
 	}
-	return newSchema(table, m)
+	st, err := newSchema(table, m)
+	if err == nil && db.header != nil && db.header.DescIgnored {
+		st.ignoreDesc()
+	}
+	return st, err
 }
 
 // Info gives some debugging info about the open database
